@@ -748,7 +748,9 @@ class VacancyMediated(object):
         self.NGFmax= NGFmax
         # empty dictionaries to store GF values: necessary if we're changing NGFmax
         self.clearcache()
-        return GFcalc.GFCrystalcalc(self.crys, self.chem, self.sitelist, self.om0_jn, NGFmax)
+        # keep it: NGFmax has just been recorded, so a second request for the same NGFmax returns self.GFcalc
+        self.GFcalc = GFcalc.GFCrystalcalc(self.crys, self.chem, self.sitelist, self.om0_jn, NGFmax)
+        return self.GFcalc
 
     def clearcache(self):
         """Clear out the GF cache values"""
